@@ -10,6 +10,8 @@ from ..lib import FAILED, EPS
 from ..runner import Sub
 
 ID = 'C15'
+TECHNIQUE = 'PBT with interval-envelope oracle from exact rational interpolation + generated query histories against one shared cache (incl. all-segments history)'
+LEVEL_TEXT = 'Exploration: Definition within rounding envelope; cache transparency bit-identical after every step. Finds counter-examples (shrunk to a replay file); never proves absence.'
 RULE = ('definition: (performance curve; ascending breakpoint set containing both ends; metric) -> independent '
         'definition: piecewise-linear interpolation through the breakpoints in exact rational arithmetic, '
         'per-metric accumulation, divisor n + #interior breakpoints, segments of <= 2 points contribute 0, R2 = '
